@@ -189,6 +189,14 @@ def databases():
         "G*8": {"mutations": [["G", "deletion:e1"], C52]},
         "G*5": {"mutations": [["G", "deletion"]]},
     }))
+    # a partial deletion that removes exactly the regions a bare left fusion replaces: same main-gene vector, different pseudogene vector
+    dbs.append(("a partial deletion whose main-gene copy vector equals that of a bare left fusion", {
+        "G*1": {"mutations": []},
+        "G*2": {"mutations": [C20, S45]},
+        "G*13": {"mutations": [["GP", "e2-"]]},
+        "G*7": {"mutations": [["G", "deletion:up,e1,i1"], S45]},
+        "G*5": {"mutations": [["G", "deletion"]]},
+    }))
     dbs.append(("partial deletions are the only structural alleles", {
         "G*1": {"mutations": []},
         "G*2": {"mutations": [C20, S45]},
@@ -521,6 +529,8 @@ def run(repo, res):
 
 
 MUTANTS = [
+    dict(name="R5 configurations keyed by the main-gene vector only (seeded X9_2 shape)", module="common", expect=["C09.R1", "C09.R5"],
+         old="    a = tuple(i[1] for i in sorted(x[0].items()))\n    if len(x) > 1:\n        a += tuple(i[1] for i in sorted(x[1].items()))\n    return a", new="    return tuple(i[1] for i in sorted(x[0].items()))"),
     dict(name="R5 second allele of a shared left-fusion configuration falls back to the default structure", module="gene", expect="C09.R5",
          old="                inverse_cn[key] = a\n            else:\n                self.cn_configs[inverse_cn[key]].alleles.add(a)\n        # Deletion is a special kind of left fusion",
          new="                inverse_cn[key] = a\n            else:\n                pass\n        # Deletion is a special kind of left fusion"),
